@@ -1,4 +1,4 @@
-import RichModel.Lemmas.AnsiShape
+import RichModel.Lemmas.AnsiChars
 /-!
 # C03 — the ANSI stream written means exactly what the styled segments say
 
@@ -23,9 +23,14 @@ length of a history, or enumerates styles.
 `pending_fixes/C03-*.diff`): it is what /repo contains now.  The `old_…` theorems show that rich 9.10.0 as
 found, before those fixes (`RVariant.today` — the name dates from then), violates the statements.
 
-Partial: the theorems are about *tokens*; token ↔ character serialisation (decimal digits, `;`, ESC)
-is defined (`serialise`) and validated on every run by the correspondence (`c03_chars`, `c03_toks`),
-proved only as far as `colour_none_no_esc_chars` needs it.
+The statements come in two layers.  Token layer: what `_render_buffer` writes as a list of `Tok`
+(`stream_means_segments`, `history_means_segments`, …).  Character layer — the property's own words —
+`stream_means_segments_chars` / `history_means_segments_chars`: the *characters* written
+(`renderBufferChars` = `serialise` of the tokens), read back by the terminal's own tokenizer
+(`AnsiTerm.tokenize`, written independently of `serialise`) and interpreted, mean the segments;
+hypothesis `NoEscIn` / `OpsClean`: no ESC in any segment text, no ESC / BEL in any link (a link that
+contained them could not be framed by OSC 8 at all).  `tokenize_reads_back` is the wire-format lemma
+(decimal digits, `;`, ESC framing, BEL / ST terminators).
 -/
 namespace RichModel.C03
 open RichModel RichModel.AnsiTerm RichModel.AnsiRender
@@ -213,19 +218,90 @@ theorem not_terminal_no_control (cc : Cfg) (cfg : Config) (ht : cfg.isTerminal =
   funext s
   simp [segVisible, ht]
 
-/- Full statement (open for the NO_COLOR path): for every configuration with `isTerminal = false`,
-   `renderBuffer .repaired cc P cfg heap segs = renderBuffer .repaired cc P cfg heap (segs.filter (!·.control))`.
-   Proved below when `_render_buffer` does not go through `remove_color`; under NO_COLOR the two runs
-   number their temporary colourless objects differently, and only the shown cells
-   (`not_terminal_no_control`) are proved equal. -/
-/-- On a non-terminal, dropping the control segments from the input changes neither the tokens written
-nor the caches (repaired code; any configuration that does not go through `remove_color`). -/
-theorem not_terminal_no_control_partial (v : RVariant) (hv : v.styledControlKept = false) (cc : Cfg) (cfg : Config)
-    (ht : cfg.isTerminal = false) (hnc : (cfg.noColor && cfg.colorSystem.isSome) = false) (heap : Heap) (segs : List Seg) :
-    renderBuffer v cc P cfg heap segs = renderBuffer v cc P cfg heap (segs.filter fun s => !s.control) := by
-  unfold renderBuffer
-  simp only [hnc, Bool.false_eq_true, if_false]
-  exact renderLoop_not_terminal v hv cc P cfg ht segs heap
+/-- **not_terminal_no_control, token for token.**  On a non-terminal, dropping the control segments
+from the buffer changes neither what is written nor the caches — every configuration, NO_COLOR
+included. -/
+theorem not_terminal_no_control_tokens (cc : Cfg) (cfg : Config) (ht : cfg.isTerminal = false) (heap : Heap)
+    (segs : List Seg) (hok : HeapOK cc P heap) (hrefs : RefsOK heap segs) :
+    renderBuffer .repaired cc P cfg heap segs = renderBuffer .repaired cc P cfg heap (segs.filter fun s => !s.control) :=
+  renderBuffer_not_terminal .repaired rfl rfl cc P palettes_ok cfg ht heap segs hok hrefs
+
+/-! ## the cache is invisible; the characters -/
+
+/-- **The cache is invisible.**  Whatever the (sound) caches hold, `_render_buffer` writes exactly the
+tokens of the cache-free specification `specToks` — every styled run as a brand-new `Style` object
+would render it. -/
+theorem tokens_are_cache_free (cc : Cfg) (cfg : Config) (heap : Heap) (segs : List Seg)
+    (hok : HeapOK cc P heap) (hrefs : RefsOK heap segs) :
+    ∃ heap', renderBuffer .repaired cc P cfg heap segs = .ok (specToks cc P cfg heap segs, heap') := by
+  obtain ⟨heap', h, _⟩ := renderBuffer_toks .repaired rfl rfl cc P palettes_ok cfg heap segs hok hrefs
+  exact ⟨heap', h⟩
+
+/-- …and so do whole histories. -/
+theorem history_tokens_are_cache_free (cc : Cfg) (ops : List Op) (hops : OpsOK 0 ops) :
+    runOps .repaired cc P [] ops = (specOpsToks cc P [] ops).map Except.ok :=
+  runOps_toks .repaired rfl rfl cc P palettes_ok ops [] (by intro o ho; cases ho) hops
+
+/-- **The wire format reads back.**  The terminal's tokenizer applied to the serialisation of
+well-formed tokens (no ESC in text; no `;` / ESC / BEL in OSC 8 parameters, no ESC / BEL in the URI;
+any SGR parameters) returns the tokens, adjacent text runs merged — decimal digits, `;` separators,
+`ESC [ … m` and `ESC ] 8 ; … ESC \` framing included. -/
+theorem tokenize_reads_back (toks : List Tok) (h : ∀ t ∈ toks, WFTok t) :
+    tokenize (serialise toks) = normalise toks ∧ interp (tokenize (serialise toks)) = interp toks := by
+  refine ⟨tokenize_serialise toks h, ?_⟩
+  simp only [interp, interpFrom_tokenize_serialise toks h]
+
+/-- **stream_means_segments at the level of characters** — the property's own words.  For every
+configuration, every sound heap and every segment list without ESC in its texts (and without ESC /
+BEL in the links): the characters `_render_buffer` returns, read by the terminal's tokenizer and
+interpreted from the default state, are exactly the visible characters of the segments, each with the
+attributes, colours and hyperlink of its style; nothing leaks (the terminal ends in its default
+state). -/
+theorem stream_means_segments_chars (cc : Cfg) (cfg : Config) (heap : Heap) (segs : List Seg)
+    (hok : HeapOK cc P heap) (hrefs : RefsOK heap segs) (hclean : NoEscIn heap segs) :
+    ∃ chars heap', renderBufferChars .repaired cc P cfg heap segs = .ok (chars, heap') ∧
+      interp (tokenize chars) = expectedCells cc P cfg heap segs ∧ finalState (tokenize chars) = {} ∧
+      HeapOK cc P heap' ∧ heap'.map (·.style) = heap.map (·.style) := by
+  obtain ⟨chars, heap', h1, h2, h3, h4⟩ :=
+    renderBufferChars_means .repaired rfl rfl cc P palettes_ok cfg heap segs hok hrefs hclean
+  exact ⟨chars, heap', h1, by simp [interp, h4], by simp [finalState, h4], h2, h3⟩
+
+/-- **history_means_segments at the level of characters.** -/
+theorem history_means_segments_chars (cc : Cfg) (ops : List Op) (hops : OpsOK 0 ops) (hclean : OpsClean ops) :
+    ∃ outs : List (List Char), runOpsChars .repaired cc P [] ops = outs.map Except.ok ∧
+      outs.map (fun s => interp (tokenize s)) = specOps cc P [] ops ∧
+      ∀ s ∈ outs, finalState (tokenize s) = {} :=
+  runOpsChars_means .repaired rfl rfl cc P palettes_ok ops [] (by intro o ho; cases ho) hops
+    (by intro o ho; cases ho) hclean
+
+/-! ## the `Except` branches -/
+
+/-- **When `_render_buffer` raises** (both code variants): only with colour enabled and NO_COLOR off,
+and then some style of the heap carries a `Color` object that is not well-formed (a STANDARD / 256 /
+WINDOWS colour without number or out of range, a TRUECOLOR colour without triplet, …). -/
+theorem raises_only_for_ill_formed_colour (v : RVariant) (cc : Cfg) (cfg : Config) (heap : Heap) (segs : List Seg)
+    (e : ColorErr) (h : renderBuffer v cc P cfg heap segs = .error (.py e)) :
+    cfg.noColor = false ∧ cfg.colorSystem ≠ none ∧
+      ∃ o ∈ heap, ∃ c, (o.style.color = some c ∨ o.style.bgcolor = some c) ∧ ¬ c.WF := by
+  obtain ⟨h1, s, hs, cs, hcs, hcc⟩ := renderBuffer_error v cc P cfg heap segs e h
+  simp only [List.mem_map] at hs
+  obtain ⟨o, ho, rfl⟩ := hs
+  exact ⟨h1, by rw [hcs]; simp, o, ho, computeCodes_error cc P palettes_ok o.style cs e hcc⟩
+
+/-- The exception is the one computing that style's codes raises (`AssertionError`, `IndexError`, …). -/
+theorem raises_what_the_colour_raises (v : RVariant) (cc : Cfg) (cfg : Config) (heap : Heap) (segs : List Seg)
+    (e : ColorErr) (h : renderBuffer v cc P cfg heap segs = .error (.py e)) :
+    ∃ o ∈ heap, ∃ cs, cfg.colorSystem = some cs ∧ computeCodes cc P o.style cs = .error e := by
+  obtain ⟨_, s, hs, cs, hcs, hcc⟩ := renderBuffer_error v cc P cfg heap segs e h
+  simp only [List.mem_map] at hs
+  obtain ⟨o, ho, rfl⟩ := hs
+  exact ⟨o, ho, cs, hcs, hcc⟩
+
+/-- A STANDARD colour without a number (`Color("x", ColorType.STANDARD)`): `assert number is not None`. -/
+theorem ill_formed_colour_raises :
+    renderBuffer .repaired Cfg.repaired P ⟨some .truecolor, false, true, false⟩
+      [⟨{ Style.null with color := some { name := ['x'], type := .standard }, isNull := false }, none⟩]
+      [⟨['a'], some 0, false⟩] = .error (.py .assertionError) := by decide
 
 /-! ## Witnesses: the defects of rich 9.10.0 as found (before fixes c9ec5a8, 23674a1; variant `RVariant.today`) -/
 
@@ -333,5 +409,17 @@ example : (renderBuffer .repaired Cfg.repaired P ⟨some .windows, false, true, 
 example : (renderBuffer .repaired Cfg.repaired P ⟨some .eightBit, true, true, false⟩ [⟨fancy, none⟩] [⟨['h'], some 0, false⟩]).map (·.1) =
     .ok [.osc8 linkIdMask "http://x".toList, .sgr [1, 9], .text ['h'], .sgr [0], .osc8 [] []] := by decide
 example : serialise [.sgr [1, 38, 5, 100], .text ['x'], .sgr [0]] = "\x1b[1;38;5;100mx\x1b[0m".toList := by decide
+
+-- the character-level hypotheses are satisfiable, and the tokenizer reads a real stream back
+example : OpsClean twoConsoles :=
+  ⟨(by intro l h; cases h), (by intro seg hs; simp at hs; subst hs; decide), (by intro seg hs; simp at hs; subst hs; decide), trivial⟩
+example : NoEscIn [⟨fancy, none⟩] [⟨['h', 'i'], some 0, false⟩] :=
+  ⟨(by intro seg hs; simp at hs; subst hs; decide),
+   (by intro o ho l hl; simp at ho; subst ho; cases hl; decide)⟩
+example : tokenize "\x1b]8;id=*;http://x\x1b\\\x1b[1;9;38;2;255;136;0;48;5;100mhi\x1b[0m\x1b]8;;\x1b\\!".toList =
+    [.osc8 linkIdMask "http://x".toList, .sgr [1, 9, 38, 2, 255, 136, 0, 48, 5, 100], .text ['h', 'i'], .sgr [0], .osc8 [] [],
+     .text ['!']] := by decide
+example : (renderBufferChars .repaired Cfg.repaired P onTruecolor [⟨fancy, none⟩] [⟨['h', 'i'], some 0, false⟩, ⟨['!'], none, false⟩]).map (·.1) =
+    .ok "\x1b]8;id=*;http://x\x1b\\\x1b[1;9;38;2;255;136;0;48;5;100mhi\x1b[0m\x1b]8;;\x1b\\!".toList := by decide
 
 end RichModel.C03
